@@ -482,6 +482,8 @@ package kafka
 //@ func (*Conn).saslAuthenticate
 //@   option noframe
 //@   modifies heap
+//@   ghostdef c.$xfail == (result1 != nil)
+//@   ensures c.$xfail == (result1 != nil)
 //@   callsite (*Conn).negotiateVersion requires $1 == saslHandshake && len($2) == 2 && $2[0] == v0 && $2[1] == v1
 //@ func splitHostPortNumber
 //@   trusted address parsing
@@ -493,6 +495,8 @@ package kafka
 //@   modifies heap
 //@   ensures result == nil ==> sess.$accepted
 //@   loop 0 invariant completed ==> sess.$accepted
+// a failed authenticate exchange (including the broker hanging up, io.EOF) is never followed by a successful return
+//@   loop 0 invariant completed ==> !conn.$xfail
 
 // connect never hands out a connection when authentication failed, and closes it.
 //@ func (*Dialer).connect
